@@ -171,12 +171,16 @@ impl<T> Queue<T> {
         tail.set(push_index, v);
         // need this to make sure the data is stored before the index is updated
         std::sync::atomic::fence(Ordering::Release);
+        #[cfg(may_verif)]
+        crate::verif::point(crate::verif::site::SPMC_PUSH_WRITTEN, self as *const _ as usize);
 
         // alloc new block node if the tail is full
         let new_index = push_index.wrapping_add(1);
         if new_index & BLOCK_MASK == 0 {
             let new_tail = BlockNode::new(new_index);
             // when other thread access next, we already Acquire the container node
+            #[cfg(may_verif)]
+            crate::verif::point(crate::verif::site::SPMC_PUSH_NEWBLOCK, self as *const _ as usize);
             tail.next.store(new_tail, Ordering::Release);
             self.tail.block.store(new_tail, Ordering::Relaxed);
         }
@@ -207,6 +211,8 @@ impl<T> Queue<T> {
 
             let block = unsafe { &mut *block };
 
+            #[cfg(may_verif)]
+            crate::verif::point(crate::verif::site::SPMC_POP_LOADED, self as *const _ as usize);
             // commit the pop
             match self.head.0.compare_exchange_weak(
                 head,
@@ -215,9 +221,13 @@ impl<T> Queue<T> {
                 Ordering::Acquire,
             ) {
                 Ok(_) => {
+                    #[cfg(may_verif)]
+                    crate::verif::point(crate::verif::site::SPMC_POP_CLAIMED, self as *const _ as usize);
                     let block_start = block.start.load(Ordering::Relaxed);
                     let pop_index = block_start + id;
                     if id == BLOCK_MASK {
+                        #[cfg(may_verif)]
+                        crate::verif::point(crate::verif::site::SPMC_POP_LAST, self as *const _ as usize);
                         push_index = self.tail.index.load(Ordering::Acquire);
                         // we need to check if there is enough data
                         if pop_index >= push_index {
@@ -237,6 +247,8 @@ impl<T> Queue<T> {
                     }
                     // get the data
                     let v = block.get(id);
+                    #[cfg(may_verif)]
+                    crate::verif::point(crate::verif::site::SPMC_POP_READ, self as *const _ as usize);
 
                     if block.mark_slots_read(1) {
                         // we need to free the old block
@@ -277,6 +289,8 @@ impl<T> Queue<T> {
 
             let block = unsafe { &mut *block };
 
+            #[cfg(may_verif)]
+            crate::verif::point(crate::verif::site::SPMC_LPOP_LOADED, self as *const _ as usize);
             // commit the pop
             match self.head.0.compare_exchange_weak(
                 head,
@@ -285,9 +299,13 @@ impl<T> Queue<T> {
                 Ordering::Acquire,
             ) {
                 Ok(_) => {
+                    #[cfg(may_verif)]
+                    crate::verif::point(crate::verif::site::SPMC_LPOP_CLAIMED, self as *const _ as usize);
                     let block_start = block.start.load(Ordering::Relaxed);
                     let pop_index = block_start + id;
                     if id == BLOCK_MASK {
+                        #[cfg(may_verif)]
+                        crate::verif::point(crate::verif::site::SPMC_LPOP_LAST, self as *const _ as usize);
                         // we need to check if there is enough data
                         if pop_index >= push_index {
                             // recover the old head, and return None
@@ -299,6 +317,8 @@ impl<T> Queue<T> {
                     } else if pop_index >= push_index {
                         // pop_index never exceed push_index
                         assert_eq!(pop_index, push_index);
+                        #[cfg(may_verif)]
+                        crate::verif::point(crate::verif::site::SPMC_LPOP_SKIP, self as *const _ as usize);
                         // advance the push index and this slot is ignored
                         self.tail.index.store(push_index + 1, Ordering::Relaxed);
                         if block.mark_slots_read(1) {
@@ -353,6 +373,8 @@ impl<T> Queue<T> {
             };
 
             let block = unsafe { &mut *block };
+            #[cfg(may_verif)]
+            crate::verif::point(crate::verif::site::SPMC_BULK_LOADED, self as *const _ as usize);
             // only pop within a block
             match self.head.0.compare_exchange_weak(
                 head,
@@ -361,11 +383,15 @@ impl<T> Queue<T> {
                 Ordering::Acquire,
             ) {
                 Ok(_) => {
+                    #[cfg(may_verif)]
+                    crate::verif::point(crate::verif::site::SPMC_BULK_CLAIMED, self as *const _ as usize);
                     let block_start = block.start.load(Ordering::Relaxed);
                     let pop_index = block_start + id;
 
                     let end;
                     if new_id == 0 {
+                        #[cfg(may_verif)]
+                        crate::verif::point(crate::verif::site::SPMC_BULK_LAST, self as *const _ as usize);
                         push_index = self.tail.index.load(Ordering::Acquire);
                         if pop_index >= push_index {
                             // recover the old head, and return None
@@ -393,6 +419,8 @@ impl<T> Queue<T> {
 
                     // get the data
                     let value = block.copy_to_bulk(pop_index, end);
+                    #[cfg(may_verif)]
+                    crate::verif::point(crate::verif::site::SPMC_BULK_READ, self as *const _ as usize);
 
                     if block.mark_slots_read(end - pop_index) {
                         // we need to free the old block
